@@ -92,7 +92,7 @@ def encVal : Val → String
   | .carr n l b => s!"C:{n}:{l}:" ++ encNats b
   | .ptrs l => "P:" ++ ";".intercalate (l.map encNats)
   | .vstr l => "VS:" ++ ";".intercalate (l.map encNats)
-  | .rec l => "REC:" ++ ",".intercalate (l.map toString)
+  | .stru l => "REC:" ++ ",".intercalate (l.map toString)
   | .ref a l => s!"R:{a}:" ++ ",".intercalate (l.map toString)
 
 def dv (s : String) : Val := decVal (s.splitOn ":")
